@@ -5,8 +5,52 @@ allocated at the address of a collected one."""
 import random
 
 
+def invoke_only(r):
+    """Classes without fields whose instances (and the classes themselves, as receivers of static methods) reach
+    shared *invoke* sites only: no property site ever sees them, so an invoke-cache entry is the only thing that can
+    still refer to a class once its instance is dropped. Some shapes lack the method, so a stale hit turns a
+    PropertyError into a call."""
+    n_shapes = r.randint(2, 5)
+    iters = r.randint(12, 40)
+    lines = ['fn call(o) { o.foo() }', 'fn call2(o) { o.bar() }', 'fn callS(c) { c.make() }',
+             'fn scrub(a, b, c, d, e, f, g, h) { let i = nil; let j = nil; let k = nil; let l = nil; nil }',
+             'fn mk(i, wantClass) {']
+    for k in range(n_shapes):
+        ms = []
+        if r.random() < 0.7:
+            ms.append('foo() { "foo%d" }' % k)
+        if r.random() < 0.7:
+            ms.append('bar() { "bar%d" }' % k)
+        if r.random() < 0.5:
+            ms.append('static make() { "make%d" }' % k)
+        for j in range(r.randint(0, 2)):
+            ms.append('x%d() { %d }' % (j, j))
+        r.shuffle(ms)
+        lines.append('  if i == %d {\n    class A { %s }\n    if wantClass { return A; }\n    return A();\n  }' % (k, ' '.join(ms)))
+    lines.append('  class A { foo() { "last" } bar() { "lastbar" } static make() { "lastmake" } }')
+    lines.append('  if wantClass { return A; }\n  return A();\n}')
+    use_mod = r.choice([1, 2, 3])
+    lines.append('for i in %d.times() {' % iters)
+    lines.append('  let k = i - (i / %d).floor() * %d;' % (n_shapes + 1, n_shapes + 1))
+    lines.append('  let viaSite = (i / %d).floor() * %d == i;' % (use_mod, use_mod))
+    lines.append('  let o = mk(k, false);')
+    lines.append('  let r1 = "-"; let r2 = "-"; let r3 = "-";')
+    lines.append('  try { r1 = viaSite ? call(o) : o.foo(); } catch e: Error { r1 = "nofoo"; }')
+    lines.append('  scrub(nil, nil, nil, nil, nil, nil, nil, nil);')
+    lines.append('  try { r2 = call2(o); } catch e: Error { r2 = "nobar"; }')
+    if r.random() < 0.6:
+        lines.append('  let c = mk(k, true);')
+        lines.append('  try { r3 = callS(c); } catch e: Error { r3 = "nomake"; }')
+    lines.append('  print(i, k, r1, r2, r3);')
+    lines.append('}')
+    lines.append('print("done");')
+    return '\n'.join(lines) + '\n'
+
+
 def source(rng):
     r = rng
+    if r.random() < 0.3:
+        return invoke_only(r)
     n_shapes = r.randint(2, 4)
     iters = r.randint(12, 40)
     shapes = []
